@@ -136,9 +136,6 @@ class SchemaOrder(c02.Fidelity):
         san = P.core.utils.NameSanitizer.sanitize_class_name
         if self.template in ("map", "allof_cycle"):
             return "order-dependent-loss-on-cycles"
-        for x in names:
-            if not c02._eqs(x, san(x)):
-                return "order-dependent-loss-on-cycles"
         for i, a in enumerate(names):
             for j, b in enumerate(names):
                 if i != j and len(a) < len(b) and bool(b.startswith(a)):
